@@ -56,6 +56,7 @@ def build_dir(entries, chunk_size, density, with_index=True, max_per_chunk=None)
         if (max_per_chunk and len(trial) > max_per_chunk) or _chunk(b"PMGL", bytes(12), trial, chunk_size, density) is None:
             if not cur: raise ValueError("entry does not fit a chunk")
             groups.append(cur); cur = [e]
+            if _chunk(b"PMGL", bytes(12), cur, chunk_size, density) is None: raise ValueError("entry does not fit a chunk")
         else: cur = trial
     groups.append(cur)
     npmgl = len(groups)
@@ -76,6 +77,7 @@ def build_dir(entries, chunk_size, density, with_index=True, max_per_chunk=None)
                 if _chunk(b"PMGI", b"", trial, chunk_size, density) is None:
                     if not cur: raise ValueError("index entry does not fit a chunk")
                     igroups.append(cur); cur = [e]
+                    if _chunk(b"PMGI", b"", cur, chunk_size, density) is None: raise ValueError("index entry does not fit a chunk")
                 else: cur = trial
             igroups.append(cur)
             if len(igroups) >= len(level): raise ValueError("index does not shrink (chunk too small for two index entries)")
